@@ -235,8 +235,12 @@ impl<'a> StagesBuilder<'a> {
                 for system in group {
                     let system: &SystemId = system;
 
-                    let mut name = (*map.get(system).unwrap()).to_string();
-                    name = name.replace([' ', '-', '/'], "_");
+                    // Systems registered with the empty name have no entry in
+                    // the name map; print a placeholder for them.
+                    let name = match map.get(system) {
+                        Some(name) => name.replace([' ', '-', '/'], "_"),
+                        None => format!("unnamed_{}", system.0),
+                    };
 
                     writeln!(f, "\t\t\t{},", name)?;
                 }
